@@ -691,14 +691,17 @@ def check_property(pid, tier, only_unit=None, keep=False, no_canary=False, only_
         ev["obligations"] += len(r["props"])
         ev["checker_cmd"] = r.get("checker_cmd", "")
         for p in r["props"]:
+            owner = label_owner(u, p)
+            if owner is not None and owner != pid:
+                # an obligation of another property served by the same (shared) unit: counted and reported there
+                ev["obligations"] -= 1
+                if p["status"] == "FAILURE":
+                    foreign.append((u["unit"], c["name"], obligation_key(p), owner))
+                continue
             if p["status"] == "SUCCESS":
                 ev["discharged"] += 1
                 continue
             if p["status"] != "FAILURE":
-                continue
-            owner = label_owner(u, p)
-            if owner is not None and owner != pid:
-                foreign.append((u["unit"], c["name"], obligation_key(p), owner))
                 continue
             k = is_known(known, pid, u["unit"], p)
             if k:
@@ -760,8 +763,12 @@ def check_property(pid, tier, only_unit=None, keep=False, no_canary=False, only_
         "wall_s": round(time.time() - t0, 1),
         "violations": len(violations),
     }
-    os.makedirs(os.path.join(VERIF, "evidence"), exist_ok=True)
-    json.dump(evidence, open(os.path.join(VERIF, "evidence", pid + ".json"), "w"), indent=1)
+    # evidence is the record of a complete run of the registered command against /repo itself: a partial run
+    # (--unit / --case / --no-canary) or a run against another tree writes its record under .work instead
+    partial = bool(only_unit or only_case or no_canary) or os.path.realpath(REPO) != "/repo"
+    evdir = os.path.join(WORK, "partial-evidence") if partial else os.path.join(VERIF, "evidence")
+    os.makedirs(evdir, exist_ok=True)
+    json.dump(evidence, open(os.path.join(evdir, pid + ".json"), "w"), indent=1)
     print("%s tier=%s units=%d cases=%d proof-obligations=%d/%d bounded-obligations=%d/%d known=%d violations=%d infra=%d wall=%.0fs" % (
         pid, tier, len(unit_ev), sum(e["cases"] for e in unit_ev.values()), di, ob, bdi, bob, len(seen), len(violations), len(infra), time.time() - t0))
     if not keep:
